@@ -17,7 +17,8 @@ RULE = (
     "block Gauss-Seidel sweep driven by the layout the solver reports and the state order recorded by the MDPAX_VERIF "
     "hook for that sweep (each device starts from the previous vector, processes its batches in order, sees its own "
     "earlier batches). Also: each recorded order is a permutation of all states (None when shuffling is off), orders "
-    "are not all identical across >=4 sweeps of >=6 states, a second solver with the same seed reproduces orders and "
+    "are not all identical across >=4 sweeps of >=6 states, a second solver with the same seed (built from a configuration "
+    "object instead of keyword arguments) reproduces orders and "
     "values exactly, and run to convergence (max_diff, tight epsilon) the values are within epsilon of the exact V*. "
     "Non-trivial = >=2 batches on a device, >=2 sweeps and a positive-probability transition from a later position "
     "into an earlier batch; distinct = case digest."
@@ -68,7 +69,8 @@ def judge(case):
     try:
         problem = sut.make_problem(spec)
         solver = sut.make_solver(problem, cfg)
-        twin = sut.make_solver(problem, cfg)
+        # the twin gets the same parameters (same seed) as a configuration object instead of keyword arguments
+        twin = sut.make_solver(problem, cfg, via_config=True)
     except Exception as e:
         return verdict_fail(sut_bucket(e), f"construction raised {e!r}", classes=classes)
     lay = sut.layout(solver)
